@@ -150,7 +150,14 @@ def cfg_items(rng, cfgdb, pattern):
         if key in used:
             continue
         used.add(key)
-        out += key + rng.randbytes(size)
+        val = rng.randbytes(size)
+        if cfgdb and key[3] & 0x70 in (0x40, 0x50):
+            # R4/R8-typed keys: keep the value a finite float (NaN payloads cannot be projected without their offset)
+            import struct as _s
+            typ = next((x["t"] for x in cfgdb if bytes(x["key"]) == key), "")
+            if typ[:1] == "R":
+                val = _s.pack("<f" if size == 4 else "<d", (rng.random() - 0.5) * 10 ** rng.randrange(-3, 6))
+        out += key + val
     return out
 
 
